@@ -65,6 +65,7 @@ PLAN = {
         unit("loop", "TestC13Stop", 150, 3000, seed_off=600, shrinktime="30s")]},
     "C14": {"level": "exploration", "units": [
         unit("side", "TestC14", 1000, 15000, replay="TestReplayC14"),
+        unit("side", "TestC14SlowHead", 1, 2, seed_off=975, workers={"quick": 3, "thorough": 8}, waits=True),
         {"pkg": "side", "test": "FuzzC14", "kind": "fuzz", "fuzztime": {"thorough": "180s"}, "checks": {"quick": 0, "thorough": 0}, "replay": None},
         unit("sys", "TestC14Sys", 3, 20, replay="TestReplayC14Sys", seed_off=950, shrinktime="30s", workers={"quick": 8, "thorough": 16})]},
     "C15": {"level": "exploration", "units": [
